@@ -107,6 +107,15 @@ reg("C07",
     "runtime trace monitor + differential twin with competing targets", "DESIGN.md §4 C07")
 
 
+reg("C04",
+    "Exploration by runtime monitoring: for random bound declarations (inline/where/impl/split/several module fns, by-ref and "
+    "by-value, all mock settings, both features) a family of probe application types - full, one per missing bound, !Sync, !Send, "
+    "nothing; bare and wrapped in Impl<_> - is probed at run time for `P: Trait`; answers are compared with a reference model of "
+    "bound satisfaction. The recorded impl header is checked for the exact fixed bounds and where-clause bound multiset.",
+    "Autoref availability probes (self-tested each run); 'static only via the recorded header; bounds are entraited leaf traits.",
+    "trait-availability probes vs reference model + recorder header monitor", "DESIGN.md §4 C04")
+
+
 def manifest():
     hooks_commits = subprocess.run(["git", "-C", "/repo", "log", "--format=%H", "--grep=^verif hook"],
                                    stdout=subprocess.PIPE, text=True).stdout.split()
